@@ -74,7 +74,8 @@ Theorem C03_in_lzip :
 Proof. exact C03_in_lzip_thm. Qed.
 Print Assumptions C03_in_lzip.
 
-(* C03_in (XZ) - NOT PROVED.  Full statement:
+(* C03_in (XZ) - PROVED in Properties/C03In.v (C03_in_xz, C03_in_xz_single, C03_in_xz_exec,
+   C03_in_xz_exec_single); the comment below is the statement as it was planned.  Full statement:
      forall sdec blockdec, (forall fs src r, sdec (spec view of fs) src = Some r -> blockdec fs src = Ok r) ->
      forall f d, xz_spec_decode sdec false f = Some d -> xz_decode xz_check_bytes blockdec xz_fixed true f = Ok (d, [])
    (completeness of the reader for every file of the supported feature set: optional block header
